@@ -131,7 +131,12 @@ def step (d : D) (n : Nat) (ln : Line) : D × List String :=
            ++ (if up.parts.length > 1 then ["COV mpdone.multi-part"] else []))
   | "del" =>
     let name := tokBytes (a.getD 0 "-")
-    ({ d with st := delRecursive d.st (cleanSegs name), spec := specDelete d.spec name, lastMut := "del" }, diff n ln ["ok"] ++ ["COV del"])
+    -- an empty INNER segment ("a//b") makes the filer's ServeMux redirect; the gateway's client re-issues the DELETE as GET: nothing happens
+    let segs := splitSlash name
+    let segs := if segs.head? == some [] then segs.drop 1 else segs
+    let segs := if segs.getLast? == some [] then segs.dropLast else segs
+    let st' := if segs.any (· == []) then d.st else delRecursive d.st (cleanSegs name)
+    ({ d with st := st', spec := specDelete d.spec name, lastMut := "del" }, diff n ln ["ok"] ++ ["COV del"])
   | "bdel" =>
     let names := a.map tokBytes
     let st' := names.foldl (fun s nm => delBatchName s (cleanSegs nm)) d.st
